@@ -191,6 +191,11 @@ func (e *Engine) verifyFunc(fn *ssa.Function, classes map[string]bool) (vc *VC) 
 	for _, p := range fn.Params {
 		v := vc.freshVal("p_"+p.Name(), p.Type())
 		f.assumeWF(st, v)
+		for i, lf := range layout(p.Type()) {
+			if isMutableRefLeaf(lf) {
+				vc.preRefs[v.L[i].S] = true
+			}
+		}
 		params = append(params, v)
 	}
 	var bindings []Val
@@ -315,6 +320,19 @@ func (f *Frame) nameIndex() map[string][]nameRef {
 // resolveLocal finds the SSA value for a source variable name as seen at the
 // header of loop l (nil loop: at function exit).
 func (f *Frame) resolveLocal(l *Loop, name string, st *State, phi map[*ssa.Phi]Val) (Val, bool) {
+	if name == "_V" && l != nil && l.header != nil {
+		for _, in := range l.header.Instrs {
+			if nx, ok := in.(*ssa.Next); ok {
+				if rg, ok := nx.Iter.(*ssa.Range); ok {
+					if mt, ok := rg.X.Type().Underlying().(*types.Map); ok {
+						cn := fmt.Sprintf("%s|d%d", rangeKey(rg), f.depth)
+						f.vc.registerComp(cn, SArr(keySort(mt.Key()), SBool))
+						return Val{Set: keySort(mt.Key()), T: mt.Key(), L: []Term{f.vc.get(st, cn)}}, true
+					}
+				}
+			}
+		}
+	}
 	if name == "_i" && l != nil {
 		for _, p := range l.phis {
 			if p.Comment == "rangeindex" {
@@ -523,7 +541,7 @@ func (e *Engine) assumeTypeInvs(f *Frame, st *State) {
 			continue
 		}
 		self := Term{fmt.Sprintf("self!ti%d", i), SInt}
-		env := &SpecEnv{f: f, pkg: pkg, params: map[string]Val{}, pre: st, spec: &FuncSpec{Name: "typeinv " + ti.Type}, qn: 1000 * (i + 1)}
+		env := &SpecEnv{f: f, pkg: pkg, params: map[string]Val{}, pre: st, spec: &FuncSpec{Name: "typeinv " + ti.Type}, qn: 1}
 		env.bound = map[string]Val{"self": scalar(types.NewPointer(o.Type()), self)}
 		body := env.evalBool(ti.Expr, st, nil)
 		vc.fact(Forall([]Term{self}, Imp(And(Lt(Zero, self), Lt(self, vc.A0)), body)))
